@@ -24,6 +24,9 @@ def run_draw(R, F, rec, q, m, assume=None, args=None, no_merge=False):
     ex.abstract_defs = {abstract_wc(F)["id"]}
     ex.no_merge = no_merge
     g = C.Geo(q, m)
+    # template invariants P_win: an accumulator that only ever holds sanitised coordinates stays
+    # inside the logical bounds (Houdini over loops, transferred through merges)
+    ex.templates = [lambda v, g=g: g.lw - 1 - v, lambda v, g=g: g.lh - 1 - v]
     res = R.run_entry(ex, rec, init_mem=C.display_init_mem(ex, F, rec, q, m), assume=g.i_init() + (assume or []), args=args)
     return ex, g, res
 
